@@ -466,6 +466,16 @@ func c05Schemas() []ref.Schema {
 	for _, n := range []int{0, 1, 3, 4, 8, 16, 40} {
 		out = append(out, ref.Schema{Kind: "fixed", Name: fmt.Sprintf("fx%d", n), Size: n})
 	}
+	// a wide table (more columns than one machine word has bits), longs and a few strings
+	wide := ref.Schema{Kind: "record", Name: "Wide"}
+	for i := 0; i < 70; i++ {
+		ft := long
+		if i%16 == 15 {
+			ft = str
+		}
+		wide.Fields = append(wide.Fields, ref.Field{Name: fmt.Sprintf("w%d", i), Type: ft})
+	}
+	out = append(out, wide)
 	out = append(out,
 		ref.Schema{Kind: "int", LogicalType: "date", ObjectForm: true},
 		ref.Schema{Kind: "long", LogicalType: "timestamp-millis", ObjectForm: true},
@@ -500,6 +510,9 @@ func c05GoTypes() []spec.TypeSpec {
 		// a struct with fields of its own that no schema in the list names, around the one that is named
 		spec.Struct(spec.FieldSpec{Go: "Keep", T: spec.BArray(3)}, spec.FieldSpec{Go: "A", T: i64}, spec.FieldSpec{Go: "Note", T: str}, spec.FieldSpec{Go: "Skipped", JSON: "-", T: i64}),
 		spec.Ptr(i64),
+		// a narrow view of the wide table: a few of its columns, and fields of its own between them
+		spec.Struct(spec.FieldSpec{Go: "Own", T: spec.TypeSpec{K: "array", N: 2, Elem: &i64}}, spec.FieldSpec{Go: "W1", JSON: "w1", T: i64}, spec.FieldSpec{Go: "Mine", T: str},
+			spec.FieldSpec{Go: "W66", JSON: "w66", T: i64}, spec.FieldSpec{Go: "W63", JSON: "w63", T: str}, spec.FieldSpec{Go: "Tail", T: spec.BArray(5)}),
 		// named types with an embedded struct, by value and by pointer
 		cat.Get("EmbedMid").Spec, cat.Get("EmbedPtr").Spec,
 	)
